@@ -88,6 +88,9 @@ def call(I, name, args, kwargs, fr):
             return VInt(v.ref)
         if isinstance(v, VNone):
             return VInt(-1)
+        from .values import VClass
+        if isinstance(v, VClass):
+            return VInt(-2)     # a class object is no instance: distinct from every heap reference (refs are >= 0)
         raise Unsupported("opaque_id of %r" % (v,))
     if name == "slist":
         # list-of-int specification value: slist() empty, slist(x) singleton
